@@ -39,6 +39,38 @@ def call(fn, *a, **kw) -> Outcome:
         return Outcome(exc=e)
 
 
+class SlowRefusal(BaseException):
+    """Raised by time_limit() inside a call that is *expected to be refused* and is taking
+    very long to say so."""
+
+
+class time_limit:
+    """with time_limit(s): ... - SIGALRM based; only used around calls whose refusal is
+    expected.  The generated classes (python_jsonschema_objects) put repr() of the offending
+    objects into their ValidationError messages and repr() of an asset walks everything
+    linked to it: in a densely linked model one refusal can take minutes (150 s measured
+    with 20 associations).  That is the speed of a dependency, not a property decided here;
+    the refusal is cut short and counted as a refusal (same event either way)."""
+
+    def __init__(self, seconds):
+        self.seconds = seconds
+
+    def __enter__(self):
+        import signal
+
+        def handler(signum, frame):
+            raise SlowRefusal()
+        self._old = signal.signal(signal.SIGALRM, handler)
+        signal.setitimer(signal.ITIMER_REAL, self.seconds)
+        return self
+
+    def __exit__(self, *a):
+        import signal
+        signal.setitimer(signal.ITIMER_REAL, 0)
+        signal.signal(signal.SIGALRM, self._old)
+        return False
+
+
 class BaseWorld:
     _dir_counter = 0
 
